@@ -32,12 +32,6 @@ def showResult : Result → String
 def showStep : StepOutcome → String
   | .ok => "ok" | .err e => s!"e{e}" | .panic v => s!"p{v}" | .panicNil => "pn"
 
-/-- number of functions `Combine` invokes -/
-def combineRan : List StepOutcome → Nat
-  | [] => 0
-  | .ok :: rest => 1 + combineRan rest
-  | _ :: _ => 1
-
 def step (_ : Unit) (line : String) : Unit × String :=
   match words line with
   | "tx" :: b :: c :: r :: steps =>
